@@ -444,7 +444,21 @@ def build_stepwise(case, pool, log):
     if route == "direct":
         return Stepwise(pool, base, *rules, interval=interval)
     unbound = UnboundStepwise(base)
-    for threshold, rule in rules:
+
+    def instantiate_early():
+        # the skeleton is used while its table is still growing: controllers made from it
+        # earlier (same interval, another pool) must not fix the table of later ones
+        other = make_state_pool()(3.0, 0.0, 1.0, 1.0)
+        if route == "partial":
+            unbound.s(interval=interval) >> other
+        elif route == "default-interval":
+            unbound(other)
+        else:
+            unbound(other, interval=interval)
+
+    for position, (threshold, rule) in enumerate(rules):
+        if position in case.get("instantiate_at", ()):
+            instantiate_early()
         if route == "add-decorator":
             assert unbound.add(supply=threshold)(rule) is rule
         else:
@@ -560,6 +574,13 @@ def shard_stepwise(args):
                     check_case(acc, case3, run_stepwise_case(case3), True,
                                ("stepwise-rule-objects", len(thresholds)), 1)
                     acc.traces += 1
+                if len(supplies) == 1 and route != "direct" and thresholds:
+                    for count in range(1, len(thresholds) + 1):
+                        for at in itertools.combinations(range(len(thresholds)), count):
+                            case4 = dict(case, instantiate_at=list(at))
+                            check_case(acc, case4, run_stepwise_case(case4), True,
+                                       ("stepwise-instantiated-early", len(thresholds), at), 1)
+                            acc.traces += 1
                 if len(supplies) == 1 and route in ("direct", "add-call"):
                     for earlier in ([], [1.0], [2.5, 7.0]):
                         if list(earlier) == list(thresholds):
